@@ -575,7 +575,7 @@ _ALIASING_CALLS = ('asarray', 'asanyarray', 'ascontiguousarray', 'asfortranarray
                    'ravel', 'reshape', 'view', 'transpose', 'real', 'imag', 'conj', 'conjugate')
 
 
-def no_inplace_on_args(fn, array_params=ARRAY_PARAMS):
+def no_inplace_on_args(fn, array_params=ARRAY_PARAMS, cache_reads=False):
     """False iff `fn` applies an in-place operation (augmented assignment, item / slice assignment, `out=` keyword, a
     mutating method) to one of its array-like parameters or to a name that may alias one (`x = np.asarray(param)`,
     `x = param`, `x = param.T`, `x = param[...]`, `np.conj(param)` of a real array ...); such a function corrupts the array
@@ -583,7 +583,19 @@ def no_inplace_on_args(fn, array_params=ARRAY_PARAMS):
     params = {a.arg for a in fn.args.args + fn.args.kwonlyargs if a.arg in array_params}
     alias = set(params)
 
+    def is_cache_read(e):
+        # `self.<cache>[key]` (also behind .get(key)): an object owned by the executor and shared by every later call
+        if not cache_reads:
+            return False
+        if isinstance(e, ast.Subscript) and isinstance(e.value, ast.Attribute) and isinstance(e.value.value, ast.Name) \
+                and e.value.value.id == 'self':
+            return True
+        return isinstance(e, ast.Call) and isinstance(e.func, ast.Attribute) and e.func.attr in ('get', 'setdefault') \
+            and isinstance(e.func.value, ast.Attribute) and isinstance(e.func.value.value, ast.Name) and e.func.value.value.id == 'self'
+
     def may_alias(e):
+        if is_cache_read(e):
+            return True
         if isinstance(e, ast.Name):
             return e.id in alias
         if isinstance(e, ast.Attribute):
@@ -620,6 +632,14 @@ def no_inplace_on_args(fn, array_params=ARRAY_PARAMS):
                         alias.add(t.id)
                     else:
                         alias.discard(t.id)
+                elif isinstance(t, (ast.Tuple, ast.List)) and all(isinstance(x, ast.Name) for x in t.elts):
+                    # `a, b = self.A[key], self.B[key]` element-wise; `a, b, c = self.cache[key]` all of them
+                    if isinstance(st.value, (ast.Tuple, ast.List)) and len(st.value.elts) == len(t.elts):
+                        for x, v in zip(t.elts, st.value.elts):
+                            (alias.add if may_alias(v) else alias.discard)(x.id)
+                    else:
+                        for x in t.elts:
+                            (alias.add if may_alias(st.value) else alias.discard)(x.id)
         elif isinstance(st, ast.Expr) and isinstance(st.value, ast.Call):
             c = st.value
             if any(k.arg == 'out' and may_alias(k.value) for k in c.keywords):
@@ -663,6 +683,14 @@ def c03_items(g, ft, pr, repo):
             ex = SymExec(pr, scalar_funcs(pr))
             env = {'self.dx': 'self_dx', 'self.wavelength': 'self_wavelength', 'efl': 'efl',
                    f'{data_name}.shape': Tup(['N0', 'N1'])}
+            # local temporaries between the transform and the conversion (`samples = data.shape[1]`, ...) are executed symbolically
+            for st in fn.body:
+                if isinstance(st, ast.Assign) and len(st.targets) == 1 and isinstance(st.targets[0], ast.Name) \
+                        and st.value is not r and st.value is not c and st.targets[0].id != data_name:
+                    try:
+                        env[st.targets[0].id] = ex.ev(st.value, env)
+                    except Untranslatable:
+                        env.pop(st.targets[0].id, None)
             term = ex.ev(c, env)
             # the reported value must be what is stored in the returned Wavefront, together with the array and the space
             tgt = [st.targets[0].id for st in fn.body if isinstance(st, ast.Assign) and st.value is c]
@@ -826,6 +854,105 @@ def c03_items(g, ft, pr, repo):
                 return names == ['y', 'x']          # axis 0 of `shape` is y, axis 1 is x
         return None
     g.fact('xyGridIsFftrangeTimesDxAxis0IsY', 'prysm/coordinates.py:make_xy_grid', xy_grid)
+
+    # ---- make_xy_grid as ARITHMETIC (not only recognised): the step actually used (the `diameter` branch included), the
+    # coordinate of a sample as a function of its fftrange value, which shape component feeds x / y, along which array axis
+    # each returned grid varies, the return order, and the order in which RichData.x/.y unpack it
+    def xy_arith():
+        fn = get_def(co, 'make_xy_grid')
+        body = [st for st in fn.body if not _is_docstring(st)]
+        step_else = 'dx'
+        step = None
+        gen_assign = mesh = ret = None
+        for st in body:
+            if isinstance(st, ast.If) and 'isinstance' in ast.unparse(st.test):
+                continue
+            if isinstance(st, ast.If) and 'diameter' in ast.unparse(st.test):
+                if st.orelse or len(st.body) != 1 or not isinstance(st.body[0], ast.Assign) \
+                        or ast.unparse(st.body[0].targets[0]) != 'dx':
+                    raise Untranslatable('diameter branch is not `dx = ...`')
+                tr = Tr({'diameter': 'diameter', 'max(shape)': 'smax', 'dx': 'dx'}, mode='num')
+                step = (tr.cond(st.test), tr.expr(st.body[0].value))
+                continue
+            if isinstance(st, ast.Assign) and isinstance(st.targets[0], ast.Tuple) and isinstance(st.value, (ast.GeneratorExp, ast.ListComp)):
+                gen_assign = st
+                continue
+            if isinstance(st, ast.If) and ast.unparse(st.test) == 'grid':
+                if len(st.body) != 1 or st.orelse:
+                    raise Untranslatable('grid branch')
+                mesh = st.body[0]
+                continue
+            if isinstance(st, ast.Return):
+                ret = st
+                continue
+            raise Untranslatable(f'statement {ast.unparse(st)[:50]}')
+        if gen_assign is None or mesh is None or ret is None or step is None:
+            raise Untranslatable('make_xy_grid: expected statements not found')
+        g0 = gen_assign.value.generators[0]
+        if len(gen_assign.value.generators) != 1 or g0.ifs or ast.unparse(g0.iter) != 'shape' or not isinstance(g0.target, ast.Name):
+            raise Untranslatable('per-axis generator is not over `shape`')
+        calls = [c for c in ast.walk(gen_assign.value.elt) if _endswith(c, ('fftrange',))]
+        if len(calls) != 1:
+            raise Untranslatable('no single fftrange call per axis')
+        _, fa = positional(calls[0], get_def(ft, 'fftrange'))
+        if fa.get('n') is None or ast.unparse(fa['n']) != g0.target.id:
+            raise Untranslatable('fftrange is not called on the axis length')
+        coord_term = Tr({ast.unparse(calls[0]): 'c', 'dx': 'step'}, mode='num').expr(gen_assign.value.elt)
+        names = [ast.unparse(t) for t in gen_assign.targets[0].elts]
+        if sorted(names) != ['x', 'y']:
+            raise Untranslatable('per-axis vectors are not named x, y')
+        len_of = {nm: k for k, nm in enumerate(names)}          # shape index that feeds the vector
+        # x, y = np.meshgrid(a, b[, indexing=...]): first output varies along axis 1 for 'xy' (default), axis 0 for 'ij'
+        if not (isinstance(mesh, ast.Assign) and isinstance(mesh.targets[0], ast.Tuple) and _endswith(mesh.value, ('meshgrid',))
+                and len(mesh.value.args) == 2):
+            raise Untranslatable('grid branch is not a two-argument meshgrid')
+        idx = {k.arg: k.value for k in mesh.value.keywords}.get('indexing')
+        if idx is not None and not (isinstance(idx, ast.Constant) and idx.value in ('xy', 'ij')):
+            raise Untranslatable('meshgrid indexing')
+        first_axis = 0 if (idx is not None and idx.value == 'ij') else 1
+        outs = [ast.unparse(t) for t in mesh.targets[0].elts]
+        ins = [ast.unparse(a) for a in mesh.value.args]
+        if sorted(outs) != ['x', 'y'] or sorted(ins) != ['x', 'y']:
+            raise Untranslatable('meshgrid names')
+        # output k carries the values of input k; output 0 varies along first_axis, output 1 along the other
+        varies, holds = {}, {}
+        for k in (0, 1):
+            varies[outs[k]] = first_axis if k == 0 else 1 - first_axis
+            holds[outs[k]] = ins[k]
+        if not (isinstance(ret.value, ast.Tuple) and len(ret.value.elts) == 2):
+            raise Untranslatable('return is not a pair')
+        rnames = [ast.unparse(t) for t in ret.value.elts]
+        if sorted(rnames) != ['x', 'y']:
+            raise Untranslatable('returned names')
+        # RichData.x / .y : `self._x, self._y = make_xy_grid(...)`, property returns self._x / self._y
+        pos_of = {}
+        for prop in ('x', 'y'):
+            pfn = None
+            for n in get_def(rd, 'RichData').body:
+                if isinstance(n, ast.FunctionDef) and n.name == prop and any('property' in ast.unparse(d) for d in n.decorator_list):
+                    pfn = n
+            (rv,) = [r.value for r in ast.walk(pfn) if isinstance(r, ast.Return)]
+            asg = [st for st in ast.walk(pfn) if isinstance(st, ast.Assign) and _endswith(st.value, ('make_xy_grid',))]
+            if len(asg) != 1 or not isinstance(asg[0].targets[0], ast.Tuple):
+                raise Untranslatable(f'RichData.{prop} does not unpack make_xy_grid')
+            tg = [ast.unparse(t) for t in asg[0].targets[0].elts]
+            if ast.unparse(rv) not in tg:
+                raise Untranslatable(f'RichData.{prop} returns something else')
+            pos_of[prop] = tg.index(ast.unparse(rv))
+        out = [f'def xyGridStep (dx diameter smax : K) : K :=\n  if {typed(step[0])} then {typed(step[1])} else {step_else}',
+               f'def xyGridCoord (c step : K) : K :=\n  {typed(coord_term)}']
+        for prop in ('x', 'y'):
+            got = rnames[pos_of[prop]]                  # the name inside make_xy_grid that RichData.<prop> receives
+            src = holds[got]                            # the 1-D vector whose values it carries
+            P = prop.upper()
+            out.append(f'def rich{P}LenFromShapeIndex : Nat := {len_of[src]}')
+            out.append(f'def rich{P}VariesAlongAxis : Nat := {varies[got]}')
+        return '\n'.join(out)
+    g.item('make_xy_grid.arith', 'prysm/coordinates.py:make_xy_grid + prysm/_richdata.py:RichData.x/.y', lambda: get_def(co, 'make_xy_grid'), xy_arith,
+           'def xyGridStep (dx diameter smax : K) : K := if diameter ≠ (Num.ofInt (0) : K) then diameter / smax else dx\n'
+           'def xyGridCoord (c step : K) : K := c * step\n'
+           'def richXLenFromShapeIndex : Nat := 1\ndef richXVariesAlongAxis : Nat := 1\n'
+           'def richYLenFromShapeIndex : Nat := 0\ndef richYVariesAlongAxis : Nat := 0')
 
     def rich_xy():
         ok = []
